@@ -319,7 +319,11 @@ def selectors_and_rest(rep: Report, prog: Program) -> None:
                             rep.instance("R16.4", f"{mf.qual}|{fn}")
                             cal = next((t.func for t in e.targets if t.func is not None), None)
                             pn = cal.positional_params() if cal is not None else []
-                            # by the callee's parameter names: first = policy-level value, second = call-level value
+                            allp = cal.param_names() if cal is not None else []
+                            roles = {"policy": f"policy_{attrname}", "call": f"call_{attrname}"}
+                            if set(roles.values()) <= set(allp):
+                                pn = [roles["policy"], roles["call"]]  # by name, whatever their order / kind (keyword-only, swapped)
+                            # by the callee's parameter names: the policy-level value and the call-level value (decided above)
                             if len(pn) == 2 and dict(e.kwargs) == {pn[0]: attr(("param", "self"), attrname), pn[1]: ("param", param)}:
                                 rep.ok("R16.4")
                             else:
